@@ -289,6 +289,10 @@ theorem run_stage_order :
       "perplexityKnn", "symmetriseCsr", "normaliseCsr", "exaggerate", "initY", "loop", "gradient", "gains",
       "gainsFloor", "velocity", "position", "zeroMeanY", "stopLying", "momentumSwitch"] := by decide
 
+/-- the bisection tolerance is positive and at most the `1e-4` the property allows (a tighter one is fine) -/
+theorem run_bisection_tolerance :
+    0 < Gen.TsneOps.bisectTol.1 ∧ Gen.TsneOps.bisectTol.1 * 10000 ≤ Gen.TsneOps.bisectTol.2 := by decide
+
 /-- the quadtree of the Barnes–Hut branch is two-dimensional with leaf capacity one (what `Model/QuadTree.lean` models) -/
 theorem run_quadtree_constants : Gen.TsneOps.qtNoDims = 2 ∧ Gen.TsneOps.qtNodeCapacity = 1 := by decide
 
